@@ -436,7 +436,7 @@ func runCopy(mode string, seed int64, tier string, sc *Script) map[string]any {
 			}
 			pushAll(ctx, src, u, all)
 			dstT := memory.New()
-			op := []string{"push", "fetch", "exists", "preCopy"}[rng.Intn(4)]
+			op := []string{"push", "fetch", "exists", "preCopy", "preds"}[rng.Intn(5)]
 			run := func(faults []fault) (string, *copyRun) {
 				r := newCopyRun(u, seed+int64(i))
 				r.faults = faults
@@ -1087,6 +1087,11 @@ type instrGraphSrc struct {
 }
 
 func (s *instrGraphSrc) Predecessors(ctx context.Context, d ocispec.Descriptor) ([]ocispec.Descriptor, error) {
+	if f := s.r.faultFor("preds", s.r.u.IDOf(d)); f != nil {
+		if err := s.r.fire(f, s.r.u.IDOf(d)); err != nil {
+			return nil, err
+		}
+	}
 	return s.g.Predecessors(ctx, d)
 }
 
